@@ -976,6 +976,28 @@ func (e *SpecEnv) call(x *spec.Call) Val {
 			}
 			return Val{T: t, Term: fmt.Sprintf("(%s %s)", vn, argT(0))}
 		}
+	case "decodeErr", "decoded":
+		// decodeErr(f, "T") / decoded(f, "T"): error and decoded value of the decode callback f called with a *T
+		if need(2) {
+			sl, ok := x.Args[1].(*spec.StrLit)
+			if !ok {
+				return e.fail(x, "%s: second argument must be a string literal naming the target type", fname)
+			}
+			te, err := spec.ParseType(sl.Val)
+			if err != nil {
+				return e.fail(x, "%s: %v", fname, err)
+			}
+			t, srt, ok := e.resolveType(te)
+			if !ok || t == nil {
+				return e.fail(x, "%s: unknown type %s", fname, sl.Val)
+			}
+			en, vn := decodeFuncs(vc, srt)
+			f := arg(0)
+			if fname == "decodeErr" {
+				return Val{T: errorType(), Term: fmt.Sprintf("(%s %s)", en, e.termOf(f))}
+			}
+			return Val{T: t, Term: fmt.Sprintf("(%s %s)", vn, e.termOf(f))}
+		}
 	case "isMethodOf":
 		// isMethodOf(n, "import/path.Type"): n is the name of an exported method of *Type (from go/types; A10)
 		if need(2) {
@@ -1005,6 +1027,36 @@ func (e *SpecEnv) call(x *spec.Call) Val {
 			}
 			vc.Assumed["A10: reflect enumerates exactly the exported methods go/types reports for *"+sl.Val] = true
 			return Val{T: B, Term: or(alts...)}
+		}
+	case "boxed":
+		// boxed(x): x converted to `any`, as the conversion instruction boxes it
+		if need(1) {
+			if e.fr == nil {
+				return e.fail(x, "boxed: only inside a function contract")
+			}
+			v := arg(0)
+			at := types.Universe.Lookup("any").Type()
+			if v.T == nil {
+				return e.fail(x, "boxed: argument has no Go type")
+			}
+			if _, isIface := v.T.Underlying().(*types.Interface); isIface {
+				return e.fr.convertIface(Val{T: v.T, Term: e.termOf(v)}, at, e.state())
+			}
+			return e.fr.makeInterface(Val{T: v.T, Term: e.termOf(v)}, v.T, at, e.state())
+		}
+	case "toBytes":
+		// toBytes(s): []byte(s), the same term the conversion instruction produces
+		if need(1) {
+			bt := types.NewSlice(types.Typ[types.Uint8])
+			vc.S.Sort(bt)
+			vc.declareFun("to_bytes", []string{"String"}, "Slice_Int")
+			return Val{T: bt, Term: fmt.Sprintf("(to_bytes %s)", argT(0))}
+		}
+	case "fromBytes":
+		// fromBytes(b): string(b)
+		if need(1) {
+			vc.declareFun("string_of_bytes", []string{"Slice_Int"}, "String")
+			return Val{T: S, Term: fmt.Sprintf("(string_of_bytes %s)", argT(0))}
 		}
 	case "runeLen":
 		// runeLen(s): len([]rune(s))
@@ -1432,6 +1484,11 @@ func (e *SpecEnv) callPureVals(x *spec.Call, f *ssa.Function, args []Val) Val {
 	}
 	var sorts, terms []string
 	for _, a := range args {
+		if a.Re != nil {
+			// a regexp with a constant pattern is passed as its pattern (as at call sites)
+			sorts, terms = append(sorts, "String"), append(terms, strLit(*a.Re))
+			continue
+		}
 		sorts = append(sorts, e.sortOf(a))
 		terms = append(terms, e.termOf(a))
 	}
@@ -1649,6 +1706,14 @@ func (e *SpecEnv) callIfacePure(x *spec.Call, key string, n *types.Named, method
 		return res[0]
 	}
 	return Val{T: sig.Results(), Tuple: res}
+}
+
+// decodeFuncs declares the two uninterpreted functions that model a decode callback into a value of sort srt.
+func decodeFuncs(vc *VC, srt string) (errFn, valFn string) {
+	errFn, valFn = "decode_err_"+srt, "decode_val_"+srt
+	vc.declareFun(errFn, []string{"Int"}, "Err")
+	vc.declareFun(valFn, []string{"Int"}, srt)
+	return
 }
 
 // yamlFuncs declares the two uninterpreted functions that model yaml.Unmarshal into a value of sort srt.
